@@ -215,6 +215,7 @@ pub fn enumerate(thorough: bool, part: usize, parts: usize, sink: &mut EnumSink)
         (all_strings(&[0x61, 0x62, 0x63], 3), all_strings(&[0x61, 0x62, 0x63], 2), "subject over {a,b,c} of length <= 3, pattern and replacement of length <= 2".to_string()),
         (all_strings(&[0x61, 0xFFFD, 0xD800], 3), all_strings(&[0x61, 0xFFFD, 0xD800], 2), "subject over {a, U+FFFD, 0xD800} of length <= 3, pattern and replacement of length <= 2".to_string()),
         (all_strings(&[0x61, 0x10061, 0x161], 3), all_strings(&[0x61, 0x10061, 0x161], 2), "subject over {a, 0x10061, 0x161} (equal low 16 / 8 bits) of length <= 3, pattern and replacement of length <= 2".to_string()),
+        (all_strings(&[0x61, 0x62, 0x41, 0x20041], 4), all_strings(&[0x61, 0x62, 0x41, 0x20041], 2), "subject over {a, b, A, 0x20041} (neighbouring characters next to characters that differ by 2^17: packed pairs with too few bits) of length <= 4, pattern and replacement of length <= 2".to_string()),
     ];
     for (subjects, others, desc) in &spaces {
         for (idx, s) in subjects.iter().enumerate() {
